@@ -6,7 +6,8 @@
    equals the one for a non-empty set of named deviations is reported under exactly those names.
    acc = the document every accessor must report.  *)
 EXTENDS IPNSValidate
-CONSTANT D
+CONSTANTS D,        \* number of adversary steps
+          GAttrs    \* attributes of document 1 to enumerate (subset of Attrs)
 VARIABLE hist
 gvars == <<vars, hist>>
 
@@ -29,7 +30,7 @@ ReKinds == {"unknown", "dupJunkFirst", "reorder", "nonminimal", "padToLimit"}
 
 H(op, f, v, s) == [op |-> op, f |-> f, v |-> v, s |-> s]
 
-GInit == \E d \in Datas, v1, emb \in BOOLEAN, a \in Attrs :
+GInit == \E d \in Datas, v1, emb \in BOOLEAN, a \in GAttrs :
             /\ r = Fresh(1, d, v1, emb) /\ attr = a
             /\ hist = <<[op |-> "Create", f |-> "", v |-> d, s |-> "", v1 |-> v1, emb |-> emb]>>
 
